@@ -53,7 +53,12 @@ pub fn check(name: &str, case: &Value, v: &Violation) -> bool {
             twice
         }
         "names_collide_after_sanitisation" => {
-            let pascal = case.get("use").and_then(|u| u.as_str()) != Some("prop");
+            let usage = case.get("use").and_then(|u| u.as_str()).unwrap_or("");
+            if usage == "enum" || usage == "variant" {
+                // typify disambiguates or refuses colliding variant names itself
+                return false;
+            }
+            let pascal = usage != "prop";
             let names: Vec<String> = case.get("names").and_then(|n| n.as_array()).map(|a| a.iter().filter_map(|x| x.as_str().map(|s| crate::gen::names::sanitize_like(s, pascal))).collect()).unwrap_or_default();
             let mut d = names.clone();
             d.sort();
